@@ -35,6 +35,22 @@ class CollectionValue(GenericValue):
 
     def _get_changes(self) -> Iterator[Change]:
 
+        if not isinstance(self._old_value, list) or not isinstance(
+            self._ast_node, (ast.List, type(None))
+        ):
+            # `x in snapshot(value)` where value is not a list (the test raised a TypeError or failed),
+            # the value is replaced by the list of the tested values
+            if self._ast_node is not None:
+                yield Replace(
+                    node=self._ast_node,
+                    file=self._file,
+                    new_code=self._file._value_to_code(self._new_value),
+                    flag="fix",
+                    old_value=self._old_value,
+                    new_value=self._new_value,
+                )
+            return
+
         if self._ast_node is None:
             elements = [None] * len(self._old_value)
         else:
